@@ -156,12 +156,10 @@ class Builder:
                     calls.append(("select", lambda q, part=part: q.select(*[self.arg(i) for i in part])))
         if s.get("where") is not None:
             w = s["where"]
-            if self.rng is not None and w[0] == "cplx" and w[1] == "and" and self.rng.random() < 0.5:
-                # where(a).where(b) == where(a & b)
-                calls.append(("where", lambda q: q.where(self.item(w[2]))))
-                calls.append(("where", lambda q: q.where(self.item(w[3]))))
-            else:
-                calls.append(("where", lambda q: q.where(self.item(w))))
+            parts = conjuncts(w) if (s.get("where_split") or self.coin()) else [w]
+            # where(a).where(b).where(c) == where((a & b) & c): one call per conjunct of the left-nested top-level AND
+            for part in parts:
+                calls.append(("where", lambda q, part=part: q.where(self.item(part))))
         for g in s.get("groupby", []):
             calls.append(("groupby", lambda q, g=g: q.groupby(self.arg(g, ints=True))))
         if s.get("having") is not None:
@@ -185,6 +183,15 @@ class Builder:
                 q = q.as_(s["alias"])
             return q
         return qf._with_sources(fobjs + jobjs, rest)
+
+
+def conjuncts(w):
+    """the conjuncts of a left-nested top-level AND, at item level (["cplx","and",L,R]) or term level"""
+    if w[0] == "cplx" and w[1] == "and":
+        return conjuncts(w[2]) + [w[3]]
+    if w[0] == "t" and w[1][0] == "cplx" and w[1][1] == "and" and w[1][4] is None:
+        return conjuncts(["t", w[1][2]]) + [["t", w[1][3]]]
+    return [w]
 
 
 def interleave(calls, rng):
